@@ -371,6 +371,12 @@ static int get_smpl(struct module_data *m, int size, HIO_HANDLE *f, void *parm)
 		flags = hio_read32b(f);
 		mod->xxs[i].len = hio_read32b(f);
 
+		/* more samples announced than stored: stop here on every I/O
+		 * back-end (they differ in where a seek beyond the end lands) */
+		if (hio_error(f)) {
+			return -1;
+		}
+
 		if (flags & 0x02) {
 			mod->xxs[i].flg |= XMP_SAMPLE_16BIT;
 		}
